@@ -4,9 +4,6 @@ From Coq Require Import ZArith.
 From TL Require Import Lib.Base Lib.GenTypes Gen.MagicGen Model.MagicNum Model.Magic Model.MagicSpec
      Proofs.MagicChars Proofs.MagicExtract Proofs.MagicFacts Proofs.MagicTs.
 
-Definition rs_file_plain (q : mquirks) (f : file) : bool :=
-  forallb (fun sc => forallb (fun s => forallb (rs_lit_plain q) (s_lits s)) (sc_sites sc)) (f_scopes f).
-
 Lemma rs_is_const_app a b : rs_is_const (a ++ b) = rs_is_const a || rs_is_const b.
 Proof. apply existsb_app. Qed.
 Lemma rs_is_test_app a b : rs_is_test (a ++ b) = rs_is_test a || rs_is_test b.
@@ -102,11 +99,11 @@ Lemma rs_numeric_type l : lit_is_numeric l = true -> smem (rs_node_type l) rs_nu
 Proof. destruct l; try discriminate; reflexivity. Qed.
 
 Lemma rs_lit_exact q cfg f sc s l :
-  scope_good MRs sc = true -> site_good MRs (sc_kind sc) s = true -> In l (s_lits s) -> rs_lit_plain q l = true ->
+  scope_good MRs sc = true -> site_good MRs (sc_kind sc) s = true -> In l (s_lits s) ->
   rs_site_report q cfg (mk_rssite (rs_node_type l) (lit_chars l) (rs_ctx_chain (s_ctx s) ++ rs_scope_chain sc) (s_line s))
   = spec_lit MRs cfg (spec_file_exempt MRs f) sc s l.
 Proof.
-  intros Hsc Hsite Hin Hp. unfold site_good in Hsite.
+  intros Hsc Hsite Hin. unfold site_good in Hsite.
   apply andb_prop in Hsite. destruct Hsite as [H123 Hlits]. apply andb_prop in H123. destruct H123 as [H123 _]. apply andb_prop in H123. destruct H123 as [H12 _].
   apply andb_prop in H12. destruct H12 as [Hctx _].
   rewrite forallb_forall in Hlits. specialize (Hlits l Hin).
@@ -114,7 +111,7 @@ Proof.
   destruct (lit_is_numeric l) eqn:Hnum.
   - rewrite (rs_numeric_type l Hnum). cbn [negb].
     destruct (lit_raw_numeric l Hnum) as [raw Hr].
-    rewrite (rs_lit_extract q l raw Hlits Hp Hr). unfold lit_value. rewrite Hr. cbn [option_map].
+    rewrite (rs_lit_extract q l raw Hlits Hr). unfold lit_value. rewrite Hr. cbn [option_map].
     rewrite allowed_spec, rs_is_const_app, rs_scope_no_const, orb_false_r, (rs_ctx_const _ _ Hctx).
     rewrite rs_is_test_app, rs_ctx_no_test, (rs_scope_test sc Hsc).
     unfold spec_file_exempt, spec_site_exempt, spec_is_test_file. cbn [orb]. rewrite orb_false_r.
@@ -122,26 +119,16 @@ Proof.
   - rewrite (rs_nonnumeric_type l Hnum). cbn [negb]. rewrite (lit_value_numeric l Hnum). reflexivity.
 Qed.
 
-(* Main theorem (Rust) *)
-Theorem rs_report_guarded q cfg f :
-  file_good MRs f = true -> rs_file_plain q f = true -> rs_report q cfg f = spec_report MRs cfg f.
+(* Main theorem (Rust): for EVERY quirk vector - the suffix selection may be the source's own or the property's *)
+Theorem rs_report_exact q cfg f :
+  file_good MRs f = true -> rs_report q cfg f = spec_report MRs cfg f.
 Proof.
-  intros Hg Hplain. unfold file_good in Hg. apply andb_prop in Hg. destruct Hg as [_ Hscopes].
+  intros Hg. unfold file_good in Hg. apply andb_prop in Hg. destruct Hg as [_ Hscopes].
   unfold rs_report, to_rs, spec_report. rewrite flat_map_flat_map. apply flat_map_ext_in. intros sc Hsc.
   rewrite flat_map_flat_map. apply flat_map_ext_in. intros s Hs.
-  unfold rs_file_plain in Hplain. rewrite forallb_forall in Hscopes, Hplain. specialize (Hscopes sc Hsc). specialize (Hplain sc Hsc).
+  rewrite forallb_forall in Hscopes. specialize (Hscopes sc Hsc).
   assert (Hscope := Hscopes). unfold scope_good in Hscopes. apply andb_prop in Hscopes. destruct Hscopes as [Hsites _].
-  rewrite forallb_forall in Hsites, Hplain. specialize (Hsites s Hs). specialize (Hplain s Hs).
+  rewrite forallb_forall in Hsites. specialize (Hsites s Hs).
   unfold to_rs_site. rewrite flat_map_map. apply flat_map_ext_in. intros l Hl.
-  rewrite forallb_forall in Hplain. apply rs_lit_exact; [exact Hscope | exact Hsites | exact Hl | apply Hplain; exact Hl].
+  apply rs_lit_exact; [exact Hscope | exact Hsites | exact Hl].
 Qed.
-
-Lemma rs_plain_ideal q f : q_rs_hex_suffix_clash q = false -> rs_file_plain q f = true.
-Proof.
-  intros H. unfold rs_file_plain. rewrite forallb_forall. intros sc _. rewrite forallb_forall. intros s _.
-  rewrite forallb_forall. intros l _. unfold rs_lit_plain. destruct l; try reflexivity. rewrite H. destruct r; reflexivity.
-Qed.
-
-Theorem rs_report_exact q cfg f :
-  q_rs_hex_suffix_clash q = false -> file_good MRs f = true -> rs_report q cfg f = spec_report MRs cfg f.
-Proof. intros H Hg. apply rs_report_guarded; [exact Hg | apply rs_plain_ideal; exact H]. Qed.
